@@ -60,7 +60,22 @@ func parseIName(s string) iname {
 	return n
 }
 
+// component numbers 91..94 are very long components (value lengths around 2^16), everything else is "c<k>"
+var longLen = map[int]int{91: 65535, 92: 65536, 93: 65537, 94: 70000}
+var longVal = map[int][]byte{}
+
 func comp(k int) enc.Component {
+	if n, ok := longLen[k]; ok {
+		v, have := longVal[k]
+		if !have {
+			v = make([]byte, n)
+			for i := range v {
+				v[i] = byte('a' + i%7)
+			}
+			longVal[k] = v
+		}
+		return enc.NewBytesComponent(enc.TypeGenericNameComponent, v)
+	}
 	return enc.NewStringComponent(enc.TypeGenericNameComponent, "c"+strconv.Itoa(k))
 }
 
@@ -75,9 +90,20 @@ func (n iname) enc() enc.Name {
 func unintern(n enc.Name) string {
 	in := make(iname, len(n))
 	for i, c := range n {
+		if len(c.Val) >= 65535 && c.Typ == enc.TypeGenericNameComponent {
+			found := false
+			for k, l := range longLen {
+				if l == len(c.Val) {
+					in[i], found = k, true
+				}
+			}
+			if found {
+				continue
+			}
+		}
 		s := string(c.Val)
 		if c.Typ != enc.TypeGenericNameComponent || !strings.HasPrefix(s, "c") {
-			return "?" + n.String()
+			return "?" + fmt.Sprintf("%d-byte component", len(c.Val))
 		}
 		k, err := strconv.Atoi(s[1:])
 		if err != nil {
@@ -606,8 +632,33 @@ func (g *gen) universe(pfx []iname) []iname {
 
 var costs = []uint64{0, 1, 1, 5, 10, 10, 200, 1<<64 - 1}
 
+// withLong: some of the prefixes get a very long component (in the middle or at the end), next to their short siblings
+func (g *gen) withLong(pfx []iname) []iname {
+	out := append([]iname{}, pfx...)
+	for j := 0; j < 3; j++ {
+		b := pfx[g.r.Intn(len(pfx))]
+		if len(b) >= 6 {
+			continue
+		}
+		n := append(iname{}, b...)
+		n = append(n, 91+g.r.Intn(4))
+		out = append(out, n)
+		if g.r.Intn(2) == 0 {
+			out = append(out, append(append(iname{}, n...), 1+g.r.Intn(2)))
+		}
+		if g.r.Intn(2) == 0 { // the same position with another long component of a neighbouring length
+			n2 := append(append(iname{}, b...), 91+g.r.Intn(4))
+			out = append(out, n2)
+		}
+	}
+	return out
+}
+
 func (g *gen) fibCase(id string, m int) *tcase {
 	pfx := g.prefixes()
+	if g.r.Intn(6) == 0 {
+		pfx = g.withLong(pfx)
+	}
 	c := &tcase{id: id, m: m, kind: "fib", impls: "TH", universe: g.universe(pfx)}
 	nops := 10 + g.r.Intn(51)
 	unsetRoot := g.r.Intn(10) == 0 // adversarial stream: the root strategy may be unset
